@@ -2,10 +2,24 @@
 import collections
 from contracts.dr import M as DR, Comp, Val
 from contracts.specs import M as SF
-from pyvc.dsl import List, Map, Set, Opt, INT
+from pyvc.dsl import List, Map, Set, Opt, INT, STR
+from contracts.specs import WF, HT
+IGT = Map(Comp, Set(Comp))
 
 GROUPS = [
-    dict(name="handlers", sidecars=["specs"], units=[(SF, "_register_context_handler")]),
+    dict(name="handlers", sidecars=["specs"], units=[(SF, "_register_context_handler")], lemmas=[dict(
+        # C05-WF (contracts only): the facts _register_context_handler ensures about one handler table (h0 -> h1, ignore table ig0 -> ig1)
+        # preserve the representation invariant "all but the newest handler of a context ignore it"
+        name="C05-WF",
+        decls=collections.OrderedDict(h0=HT, h1=HT, ig0=IGT, ig1=IGT, name=STR, component=Comp, D=Set(Comp)),
+        hyps=[WF("h0", "ig0"),
+              "forall(x, Comp, forall(y, Comp, implies(x in ig0 and y in ig0[x], x in ig1 and y in ig1[x])))",
+              "forall(n, Str, implies(n != name, (n in h1) == (n in h0) and implies(n in h0, h1[n] == h0[n])))",
+              "forall(x, Comp, implies(x not in D, (name in h1 and x in h1[name]) == (name in h0 and x in h0[name]) and "
+              "   implies(name in h1 and x in h1[name], h1[name][x] == h0[name][x])))",
+              "forall(x, D, name in h1 and x in h1[name] and len(h1[name][x]) == len(row0(h0, name, x)) + 1 and h1[name][x][len(row0(h0, name, x))] == component and "
+              "   forall(k, range(0, len(row0(h0, name, x))), h1[name][x][k] == row0(h0, name, x)[k] and row0(h0, name, x)[k] in ig1 and x in ig1[row0(h0, name, x)[k]]))"],
+        goals=[WF("h1", "ig1")])]),
     dict(name="resolution", sidecars=["dr", "specs"], units=[
         (SF, "RegistryPoint.__call__"), (DR, "ComponentType.add_dependency"),
         (DR, "Broker.__contains__"), (DR, "Broker.__getitem__"),
